@@ -122,6 +122,12 @@ def _(lm):
     lm.case("shares_add_up_to_one", lambda ex: ([t > 0, acc_w * t == t], acc_w == 1))
 
 
+def canaries(pr):
+    def wrong_formula(pr):
+        F = A.Fn(pr.tree, Q)
+        return [A.bvc("canary", "collect", "lot_term_is_cost_times_sold_share", F.has("transaction_cost_basis = in_transaction.fiat_in_with_fee * sold_percent"), REL)]
+    return [("unrealized_cost_uses_sold_share_must_fail", wrong_formula)]
+
 MANIFEST_ENTRY = {
     "category": "other",
     "text": ("Collection-pass and report-pass contracts discharged over the AST of open_positions.Generator.generate (lot term = cost with fee x unsold share, "
